@@ -36,6 +36,11 @@ def _units(tier):
         [['b ', 1], ['a ', 1], ['<s/>'], [1, ' ', 1]],
         [['%define ', 2]],
         [['%include ', 2]],
+        # the refused directives with every kind of separator and spelling around them
+        [['%define', 1, 'a', 1, 'b']],
+        [['%include', 1, 'a', 1]],
+        [[1, '%define', 1, 'a b']],
+        [['<a>'], ['%define', 1, 'a b'], ['</a>'], ['k $a']],
     ]
     if tier != 'quick':
         T += [
@@ -111,6 +116,11 @@ class C17(Harness):
             return ('ok', s1, t1, _struct(c2), c2.__str__())
 
     def expect(self, unit, inp, real):
+        # '%define' and '%include' are refused rather than silently dropped: the line-grammar
+        # reference says where the first such directive is reached before any syntax error
+        from ..oracles import linegrammar as G
+        if G.parse(common.assemble(unit['lines'], inp), 'schemaless')[0] == 'notimpl':
+            return ('notimpl',)
         if real[0] == 'ok':
             return ('ok', real[1], real[2], real[1], real[2])
         if real[0] in ('reject1', 'notimpl'):
